@@ -84,8 +84,20 @@ StateProgs ==
     Program(<<Raw(<<"ok := str2num \"1\"">>), Raw(<<"print ok err \"[\"+errmsg+\"]\"">>), Raw(<<"bad := str2num \"x\"">>), Raw(<<"print bad">>),
               Raw(<<"on key k:string">>), Raw(<<"    print k err errmsg (rand 9)">>), Raw(<<"    z := str2num k">>), Raw(<<"    print z err">>), Raw(<<"end">>)>>, <<>>, <<>>) }
 
-Progs == StateProgs \cup MapLits \cup EffProgs \cup RepMapProgs \cup UnusedProgs \cup FontProgs \cup ManyErrors \cup {Seed(NoIns), Seed2}
-ClassOf(p) == CASE p \in StateProgs -> "run-state" [] p \in MapLits -> "maplit-types" [] p \in RepMapProgs -> "map-copy" [] p \in EffProgs -> "maplit-effects" [] p \in UnusedProgs -> "unused"
+\* several definitions that clash with predefined names (rejected before anything else is parsed); format verbs
+\* applied to composite arguments (whatever text that gives, it is the same text every time)
+ClashProgs ==
+  { Program(<<Raw(<<"func len s:string">>), Raw(<<"    print s">>), Raw(<<"end">>), Raw(<<"func abs n:num">>), Raw(<<"    print n">>), Raw(<<"end">>),
+              Raw(<<"func join a:[]string">>), Raw(<<"    print a">>), Raw(<<"end">>), Raw(<<"func pi">>), Raw(<<"    print 3">>), Raw(<<"end">>),
+              Raw(<<"func err">>), Raw(<<"    print 1">>), Raw(<<"end">>), Raw(<<"func print">>), Raw(<<"    cls">>), Raw(<<"end">>), Raw(<<"len \"x\"">>)>>, <<>>, <<>>),
+    Program(<<Raw(<<"func f">>), Raw(<<"    print 1">>), Raw(<<"end">>), Raw(<<"func f">>), Raw(<<"    print 2">>), Raw(<<"end">>), Raw(<<"func g x:num x:num">>), Raw(<<"    print x">>), Raw(<<"end">>),
+              Raw(<<"func h:bad">>), Raw(<<"end">>), Raw(<<"func k y:bad z:worse">>), Raw(<<"end">>), Raw(<<"on key">>), Raw(<<"end">>), Raw(<<"on key">>), Raw(<<"end">>), Raw(<<"on nokey">>), Raw(<<"end">>)>>, <<>>, <<>>),
+    Program(<<Raw(<<"a := [21.5 19]">>), Raw(<<"m := {k:[1 2] j:{x:true}}">>), Raw(<<"printf \"%f %t %d %x %p %e %c %U %b %o %T\\n\" a a a a a a a a a a a">>),
+              Raw(<<"printf \"%f %d %p %x %#v %+v %6.2f\\n\" m m m m m m m">>), Raw(<<"s := sprintf \"%d %p %#v\" a m [[1] [2]]">>), Raw(<<"print s">>),
+              Raw(<<"test 1 2 \"%d %p\" a m">>)>>, <<>>, <<>>) }
+
+Progs == ClashProgs \cup StateProgs \cup MapLits \cup EffProgs \cup RepMapProgs \cup UnusedProgs \cup FontProgs \cup ManyErrors \cup {Seed(NoIns), Seed2}
+ClassOf(p) == CASE p \in ClashProgs -> "run-state" [] p \in StateProgs -> "run-state" [] p \in MapLits -> "maplit-types" [] p \in RepMapProgs -> "map-copy" [] p \in EffProgs -> "maplit-effects" [] p \in UnusedProgs -> "unused"
                 [] p \in FontProgs -> "fontprops" [] OTHER -> "other"
 
 Init == pr \in Progs
